@@ -153,7 +153,9 @@ theorem defaultNext_spec {s : Sim} {v : VehicleId} {a next : Act} (h : defaultNe
     · cases h
     · split at h
       · cases h
-      · cases h; exact Or.inl rfl
+      · split at h
+        · cases h; exact Or.inl rfl
+        · cases h; exact Or.inl rfl
   case dispatchStation sid cid r =>
     split at h
     · cases h
